@@ -4,6 +4,14 @@ import json, subprocess
 
 # id -> (technique, level text, level note, design ref)
 CHECKS = {
+ "C19": ("history checking against executable models: recorded Set/Delete/edit/AddLoaders histories on each bundled loader, every query compared with a model (cleaned-path map, the directory tree, first holder)",
+         "Exploration: random histories per loader kind; for the file-system loaders every file, directory and missing path of a generated tree is queried after every edit; for the in-memory loader all operations use adversarial spellings of a few canonical paths; for multi, loaders overlap, are added mid-history and are edited between Exists and Open.",
+         "Trusts os/http.Dir/embed.FS and the 10-line models. Only clean absolute paths are used for the file-system loaders, as the property states.",
+         "DESIGN.md 3/C19"),
+ "C20": ("visit-multiset monitor: node pointers from an independent reflective traversal of the parsed tree versus the multiset of nodes handed to a visitor that always descends with VisitorContext.Visit",
+         "Exploration: directed templates for every construct named in the property plus grammar-generated templates (all statement and expression kinds, 12 delimiter configurations); each accepted template is walked; every statement/expression node must be visited exactly once, structural nodes at most once, no nil node, no panic, bounded visit count.",
+         "Trusts the reflective traversal (exported fields only) to enumerate the tree; templates the parser rejects are skipped and counted.",
+         "DESIGN.md 3/C20"),
  "C02": ("totality monitor: panic capture, worker-death attribution (child processes with journalled cases), goroutine census and progress watchdog over generated, truncated, mutated and structurally broken sources x 12 delimiter configurations",
          "Exploration: every ordered pair of a 96-token dictionary inside an action (tight and spaced), valid generated templates using every construct, truncations, token/byte mutations, delimiter noise, structural breaks that must be reported, and reference sets (missing/broken/transitively broken/cyclic extends and imports) are parsed through Set.Parse and Set.GetTemplate in child processes. The monitor observes return values, escaped panics, process death (a panic in the lexer goroutine cannot be recovered), goroutines left behind, error positions and elapsed progress.",
          "Hang = no return within 30 s for a source <= 8 KiB; leak = goroutine still present 200 ms after return. Cyclic extends/import is a recorded known finding (stack overflow).",
